@@ -730,8 +730,29 @@ func main() {
 	par := flag.Int("par", 24, "probes in flight")
 	e2e := flag.String("e2e", "", "path of an sx binary: add end-to-end cases through the command line")
 	replay := flag.String("replay", "", "JSON file with a list of cases to run again")
+	overlap := flag.Int64("overlap", 0, "run ONLY the overlapping-scans stage: at most this many probes per scanner kind")
+	overlapMS := flag.Int("overlap-ms", 3000, "overlapping-scans stage: at most this long")
+	overlapG := flag.Int("overlap-g", 20, "overlapping-scans stage: goroutines per scanner")
 	flag.Parse()
 
+	if *overlap > 0 {
+		rows := make([]ovRow, 2)
+		var wg sync.WaitGroup
+		for i, kind := range []string{"docker", "elastic"} {
+			wg.Add(1)
+			go func(i int, kind string) {
+				defer wg.Done()
+				rows[i] = overlapStage(kind, *seed, *overlapG, *overlap, time.Duration(*overlapMS)*time.Millisecond, 2000)
+			}(i, kind)
+		}
+		wg.Wait()
+		w := hlib.NewOut(*out)
+		for _, r := range rows {
+			w.Put(r)
+		}
+		w.Close()
+		return
+	}
 	bh, bhErr = newBlackhole()
 	var err error
 	if tlsConf, err = selfSigned(); err != nil {
